@@ -65,33 +65,49 @@ Proof.
 Qed.
 
 (* ---------------- barcode component ---------------- *)
+Lemma ostr_cmp_eq a b : ostr_cmp a b = Eq <-> a = b.
+Proof.
+  destruct a, b; simpl; split; try discriminate; try reflexivity.
+  - intros H. apply str_cmp_eq in H. now subst.
+  - intros E. injection E as ->. now apply str_cmp_eq.
+Qed.
+Lemma ostr_cmp_antisym a b : ostr_cmp b a = CompOpp (ostr_cmp a b).
+Proof. destruct a, b; simpl; auto using str_cmp_antisym. Qed.
+Lemma ostr_cmp_trans a b c : ostr_cmp a b = Lt -> ostr_cmp b c = Lt -> ostr_cmp a c = Lt.
+Proof. destruct a, b, c; simpl; try discriminate; auto. apply str_cmp_trans. Qed.
+Lemma ostr_eqb_eq a b : ostr_eqb a b = true <-> a = b.
+Proof.
+  destruct a, b; simpl; split; try discriminate; try reflexivity.
+  - intros H. apply str_eqb_eq in H. now subst.
+  - intros E. injection E as ->. apply str_eqb_refl.
+Qed.
 Lemma bar_cmp_eq a b : bar_cmp a b = Eq <-> a = b.
 Proof.
   destruct a as [[t1 n1]|], b as [[t2 n2]|]; simpl; split; try discriminate; try reflexivity.
-  - destruct (str_cmp t1 t2) eqn:E; try discriminate. apply str_cmp_eq in E. subst.
-    intros H. apply str_cmp_eq in H. now subst.
-  - intros E. injection E as -> ->. rewrite (proj2 (str_cmp_eq t2 t2) eq_refl). now apply str_cmp_eq.
+  - destruct (ostr_cmp t1 t2) eqn:E; try discriminate. apply ostr_cmp_eq in E. subst.
+    intros H. apply ostr_cmp_eq in H. now subst.
+  - intros E. injection E as -> ->. rewrite (proj2 (ostr_cmp_eq t2 t2) eq_refl). now apply ostr_cmp_eq.
 Qed.
 Lemma bar_cmp_antisym a b : bar_cmp b a = CompOpp (bar_cmp a b).
 Proof.
   destruct a as [[t1 n1]|], b as [[t2 n2]|]; simpl; try reflexivity.
-  rewrite (str_cmp_antisym t1 t2). destruct (str_cmp t1 t2); simpl; auto using str_cmp_antisym.
+  rewrite (ostr_cmp_antisym t1 t2). destruct (ostr_cmp t1 t2); simpl; auto using ostr_cmp_antisym.
 Qed.
 Lemma bar_cmp_trans a b c : bar_cmp a b = Lt -> bar_cmp b c = Lt -> bar_cmp a c = Lt.
 Proof.
   destruct a as [[t1 n1]|], b as [[t2 n2]|], c as [[t3 n3]|]; simpl; try discriminate; auto.
-  destruct (str_cmp t1 t2) eqn:E12; try discriminate.
-  - apply str_cmp_eq in E12. subst. destruct (str_cmp t2 t3); try discriminate; auto.
-    apply str_cmp_trans.
-  - intros _. destruct (str_cmp t2 t3) eqn:E23; try discriminate.
-    + apply str_cmp_eq in E23. subst. now rewrite E12.
-    + intros _. now rewrite (str_cmp_trans _ _ _ E12 E23).
+  destruct (ostr_cmp t1 t2) eqn:E12; try discriminate.
+  - apply ostr_cmp_eq in E12. subst. destruct (ostr_cmp t2 t3); try discriminate; auto.
+    apply ostr_cmp_trans.
+  - intros _. destruct (ostr_cmp t2 t3) eqn:E23; try discriminate.
+    + apply ostr_cmp_eq in E23. subst. now rewrite E12.
+    + intros _. now rewrite (ostr_cmp_trans _ _ _ E12 E23).
 Qed.
 Lemma bar_eqb_eq a b : bar_eqb a b = true <-> a = b.
 Proof.
   destruct a as [[t1 n1]|], b as [[t2 n2]|]; simpl; split; try discriminate; try reflexivity.
-  - rewrite andb_true_iff, !str_eqb_eq. intros [-> ->]. reflexivity.
-  - intros E. injection E as -> ->. now rewrite !str_eqb_refl.
+  - rewrite andb_true_iff, !ostr_eqb_eq. intros [-> ->]. reflexivity.
+  - intros E. injection E as -> ->. now rewrite !(proj2 (ostr_eqb_eq _ _) eq_refl).
 Qed.
 
 (* ---------------- the class of a concrete key ---------------- *)
